@@ -328,6 +328,7 @@ def run(ctx):
     d9_all_operand_slots(db, rep)
     d10_set_key_agrees(db, rep)
     d11_rule_lookup_fresh(db, rep)
+    d12_emulate_request_honoured(db, rep)
 
     # ---- D4 ------------------------------------------------------------------
     fn = db.func("orc_opcode_find_by_name", "orcopcode")
@@ -709,4 +710,38 @@ def d11_rule_lookup_fresh(db, rep, rule="D11-RULE-LOOKUP-FRESH"):
         rep.check(bad is None, rule, where(f), "insn->rule@%s" % x.line,
                   "insn->rule comes from orc_target_get_rule at every compile%s" % ((" (through %s)" % " -> ".join(chain)) if chain else ""),
                   "orc_compiler_assign_rules: %s. A rule set that the application registers for this opcode later is ignored by programs compiled afterwards" % bad, line=x.line)
+    return n
+
+
+def d12_emulate_request_honoured(db, rep, rule="D12-EMULATE-REQUEST-HONOURED"):
+    """An application opcode has no C backup an application could have been compiled with: where native code is not to be used
+    (ORC_CODE=emulate, no target) the program must run through the emulator, which calls the application's emulateN.  The entry
+    point chosen when the compile starts is the program's backup function if it has one; the exit that orc_compiler_compile_program
+    takes because emulation was REQUESTED must therefore store orc_executor_emulate into program->code_exec itself, on every path
+    from that decision to the return - otherwise `using emulation` is reported while the backup function runs."""
+    from flow import paths_avoiding
+    f = db.func("orc_compiler_compile_program", "orccompiler")
+    rep.saw(f)
+    n = 0
+    for b, blk in f.blocks.items():
+        if blk.cond is None or "_orc_compiler_flag_emulate" not in unparse(blk.cond):
+            continue
+        txt = unparse(blk.cond)
+        if "!" in txt.split("_orc_compiler_flag_emulate")[0][-3:]:
+            continue
+        n += 1
+
+        def release(e):
+            return e.k == "BinaryOperator" and e.op == "=" and (access_path(e.c[0]) or "").endswith("->code_exec") and "orc_executor_emulate" in unparse(e.c[1])
+
+        def flt(bb, idx, b=b):
+            return not (bb == b and f.edge_kind(bb, idx) is False)
+        wit = paths_avoiding(f, blk.cond, release, edge_filter=flt)
+        rep.check(wit is None, rule, where(f), "emulate-request@%s" % blk.cond.line, "the exit taken for ORC_CODE=emulate installs the emulator as entry point",
+                  "orc_compiler_compile_program leaves through the `emulation requested` branch (condition at line %s) without storing orc_executor_emulate "
+                  "into program->code_exec: the entry point stays what it was on entry - the backup function, if the program has one - so an application "
+                  "opcode is run by a backup C function instead of the application's emulateN although `using emulation` is reported" % blk.cond.line,
+                  line=blk.cond.line)
+    if n < 1:
+        raise AnalysisBroken("orc_compiler_compile_program: the test of _orc_compiler_flag_emulate was not found")
     return n
